@@ -373,7 +373,18 @@ func (s *Service) Stop(ctx context.Context, pipelineID string, force bool) error
 	}
 
 	verifhook.Point("lifecycle.stop.checked")
-	return s.stopRunnablePipeline(ctx, rp, force)
+	err := s.stopRunnablePipeline(ctx, rp, force)
+	if force {
+		// Stop does not wait for a Start in progress. If rp was the dead run a
+		// restart is replacing, that restart may have published its run after
+		// we resolved rp and before we marked it: Start looks at the mark of the
+		// run it supersedes right after publishing, we look at the registry
+		// right after marking - one of the two sees the other.
+		if cur, ok := s.runningPipelines.Get(pipelineID); ok && cur != rp {
+			return cerrors.Join(err, s.stopRunnablePipeline(ctx, cur, true))
+		}
+	}
+	return err
 }
 
 // StopAll will ask all the running pipelines to stop gracefully
